@@ -36,6 +36,10 @@ func runC03(c *Check, tier string) {
 	ruleNoSpawnInsideSlot(c, "R03g")
 	ruleExecutedCountsAsLoaded(c, "R03h")
 	ruleRerunOnlyWhenNeeded(c, "R03i")
+	ruleCommandWaitedFor(c, "R03j")
+	ruleNoPoolReentry(c, "R03k")
+	// "finished successfully" is decided from the wrapper script's exit status
+	ruleWrapperStatus(c, "R03l")
 }
 
 // spawnedAt: the functions a site starts on another goroutine (go statement, or a function value handed to an
@@ -442,4 +446,79 @@ func ruleExecutedCountsAsLoaded(c *Check, rule string) {
 			c.Bad(rule, key, "a target can complete successfully without being marked OutputsLoaded (for instance when the cache is disabled or the target is tagged no-cache and the mark is only set where the cache is written): under load_outputs=minimal every dependant then fails to load its outputs and runs it again, so one build executes the target more than once", pos)
 		}
 	}
+}
+
+// R03j: the worker slot is held until the command is gone. The bound counts tasks, and a task stands for a
+// running command only if the command runner does not return before it has waited for the command.
+func ruleCommandWaitedFor(c *Check, rule string) {
+	c.Rule(rule, "the command runner starts the command with (*exec.Cmd).Run, or with Start followed on every path to its return by (*exec.Cmd).Wait in the same function (not in a goroutine): it never returns while the command can still be running", 1)
+	ex := findExec(c, rule)
+	if ex == nil {
+		return
+	}
+	fn := ex.RunCommand
+	key := "command-waited-for/" + c.P.FuncName(fn)
+	starts := callsNamed(fn, "(*os/exec.Cmd).Start")
+	runs := callsNamed(fn, "(*os/exec.Cmd).Run", "(*os/exec.Cmd).Output", "(*os/exec.Cmd).CombinedOutput")
+	if len(starts) == 0 {
+		if len(runs) > 0 {
+			c.OK(rule, key, "the command is run synchronously (Run waits for it)", c.P.InstrPos(runs[0]))
+		} else {
+			c.Unknown(rule, key, "neither Run nor Start found in the command runner", c.P.Pos(fn.Pos()))
+		}
+		return
+	}
+	isWait := func(in ssa.Instruction) bool {
+		call, ok := in.(*ssa.Call)
+		return ok && engine.CalleeName(call) == "(*os/exec.Cmd).Wait"
+	}
+	isRet := func(in ssa.Instruction) bool { _, r := in.(*ssa.Return); return r && in.Parent() == fn }
+	bad := ""
+	for _, st := range starts {
+		nonNil := engine.CutEdgesWhere(func(a engine.Atom) bool {
+			if a.Op != "nonnil" {
+				return false
+			}
+			for _, o := range engine.Origins(a.V) {
+				if call, _ := engine.CallOf(o); call == st {
+					return true
+				}
+			}
+			return false
+		})
+		if r, at := engine.PathExists(fn, st, isRet, engine.PathQuery{CutInstr: isWait, CutEdge: nonNil, Shallow: true}); r {
+			bad = "after Start succeeded the runner can return (" + c.P.InstrPos(at) + ") without having waited for the command"
+		}
+	}
+	c.Require(bad == "", rule, key, "every return after a successful Start is preceded by Wait in the runner itself", bad+": the worker takes the next task while the command is still running (cleaning up after a timeout or an interrupt, say), so more than num_workers commands run at once", c.P.InstrPos(starts[0]))
+}
+
+// R03k: a task never waits for another task of its own pool. A task that submits work to the pool it runs on and
+// waits for the result holds a worker while waiting for a free one; with every worker in that state the build
+// never ends (and the nested command would not be counted by the bound the way the caller thinks).
+func ruleNoPoolReentry(c *Check, rule string) {
+	c.Rule(rule, "the pool's submit-and-wait function is not reachable from the tasks the pool's workers run", 1)
+	p := findPool(c, rule)
+	if p == nil || p.Run == nil || p.TaskCall == nil {
+		return
+	}
+	tasks := c.G.CalleesOf(p.TaskCall)
+	if len(tasks) == 0 {
+		c.Unknown(rule, "no-pool-reentry", "the functions the worker invokes as tasks could not be resolved", c.P.InstrPos(p.TaskCall))
+		return
+	}
+	reach := c.G.ReachableFuncs(tasks, nil)
+	via := ""
+	if reach[p.Run] {
+		for f := range reach {
+			for _, s := range engine.SitesIn(f) {
+				for _, cal := range c.G.CalleesOf(s) {
+					if cal == p.Run {
+						via = c.P.FuncName(f) + " (" + c.P.InstrPos(s) + ")"
+					}
+				}
+			}
+		}
+	}
+	c.Require(!reach[p.Run], rule, "no-pool-reentry/"+c.P.FuncName(p.Run), "no task submits to the pool it runs on", "a task can submit another task to its own pool and wait for it (via "+via+"): the submitting worker is blocked until some other worker is free; once every worker is in that state the build hangs forever", c.P.Pos(p.Run.Pos()))
 }
